@@ -244,6 +244,7 @@ PROPS["C11"] = {
 
 PROPS["C12"] = {
     "level": "exploration",
+    "oom_is_violation": True,
     "rule": ("each run establishes a real DNS-tunnel session that transfers data both ways, and meanwhile attacks one side: the server receives 1-12 generated queries from a foreign address or "
              "from the session's own address (names: root, ordinary lookups under and outside the domain, 1-3 character names, every command letter in both cases with valid / out-of-range / "
              "non-base-36 user ids, empty / short / maximum-label / high-byte bodies, extreme size fields, header-only, and mutations of the session's own captured queries; 14 query types, 3 "
